@@ -293,7 +293,23 @@ class InterTagsFromGitToLocalGit(InterTags):
                 except NotCommitError:
                     trace.warning("%s points to a non-commit object", tag_name)
                     continue
-                target_repo._git.refs[ref_name] = unpeeled or peeled
+                new_ref = unpeeled or peeled
+                target_store = target_repo._git.object_store
+                if new_ref not in target_store:
+                    # An annotated tag: the ref names a tag object the target
+                    # does not have yet.  A ref to a missing object is
+                    # unreadable, so bring the tag object(s) along, or fall
+                    # back to a lightweight tag if we can not get at them.
+                    source_git = getattr(self.source.branch.repository, "_git", None)
+                    if source_git is None:
+                        new_ref = peeled
+                    else:
+                        obj_id = new_ref
+                        while obj_id != peeled and obj_id not in target_store:
+                            obj = source_git.object_store[obj_id]
+                            target_store.add_object(obj)
+                            obj_id = obj.object[1]
+                target_repo._git.refs[ref_name] = new_ref
                 self.target.branch._tag_refs = None
             else:
                 try:
